@@ -567,3 +567,15 @@ impl FixtureDatabase {
         imported.contains(fixture_name)
     }
 }
+
+// Verification hooks (see analyzer.rs).
+#[cfg(pytest_language_server_verif)]
+impl FixtureDatabase {
+    pub fn verif_resolve_module_to_file(
+        &self,
+        module_path: &str,
+        importing_file: &Path,
+    ) -> Option<PathBuf> {
+        self.resolve_module_to_file(module_path, importing_file)
+    }
+}
